@@ -336,15 +336,17 @@ impl TemplateStructure for Expression {
             Self::LitArr {
                 bracket_location, ..
             } => bracket_location.1.end,
-            Self::StaticMember { obj, .. } => obj.location_end(),
-            Self::DynamicMember { obj, .. } => obj.location_end(),
-            Self::FuncCall { func, .. } => func.location_end(),
-            Self::Reverse { location, .. } => location.end,
-            Self::BitReverse { location, .. } => location.end,
-            Self::Positive { location, .. } => location.end,
-            Self::Negative { location, .. } => location.end,
-            Self::TypeOf { location, .. } => location.end,
-            Self::Void { location, .. } => location.end,
+            Self::StaticMember { field_location, .. } => field_location.end,
+            Self::DynamicMember {
+                bracket_location, ..
+            } => bracket_location.1.end,
+            Self::FuncCall { paren_location, .. } => paren_location.1.end,
+            Self::Reverse { value, .. } => value.location_end(),
+            Self::BitReverse { value, .. } => value.location_end(),
+            Self::Positive { value, .. } => value.location_end(),
+            Self::Negative { value, .. } => value.location_end(),
+            Self::TypeOf { value, .. } => value.location_end(),
+            Self::Void { value, .. } => value.location_end(),
             Self::Multiply { right, .. } => right.location_end(),
             Self::Divide { right, .. } => right.location_end(),
             Self::Remainer { right, .. } => right.location_end(),
